@@ -101,7 +101,10 @@ async def worker_serve(
                                 app,
                                 config,
                                 context,
-                                ConnectionState(lifespan_state.copy()),
+                                # Copied for each connection as it is made
+                                # (not here, what the lifespan app changes
+                                # later would be missed)
+                                lifespan_state,
                             ),
                             listeners,
                             handler_nursery=server_nursery,
